@@ -141,12 +141,16 @@ class QNoiseScheduler(tf.keras.callbacks.Callback):
     all_quantizers = []
     for layer in model.layers:
       # A list of attributes holding the quantizer(s).
-      for attr in ["quantizers", "quantizer"]:
+      # "activation" holds the quantizer of a fused activation, e.g.
+      # QDense(..., activation="quantized_relu(4)"), which is not part of
+      # layer.quantizers.
+      for attr in ["quantizers", "quantizer", "activation"]:
         if hasattr(layer, attr):
           quantizers = getattr(layer, attr)
           quantizers = quantizers if attr == "quantizers" else [quantizers]
           for quantizer in quantizers:
-            if hasattr(quantizer, "qnoise_factor"):
+            if hasattr(quantizer, "qnoise_factor") and not any(
+                quantizer is q for q in all_quantizers):
               all_quantizers.append(quantizer)
 
     return all_quantizers
